@@ -2,7 +2,7 @@
    byte-wise equality and its negation over the whole buffer. *)
 From Coq Require Import List ZArith NArith Bool String Lia ZifyBool.
 From FFSM2 Require Import Model.Cxx Model.Bits Model.BitArray Model.BitStream Generated.LeafCode
-                          Proofs.BitsProofs Proofs.BitArrayProofs Proofs.BitStreamProofs Proofs.LeafTactics Proofs.LeafConsts Proofs.LeafCodeProofs Proofs.LeafCodeArrays.
+                          Proofs.BitsProofs Proofs.BitArrayProofs Proofs.BitStreamProofs Proofs.LeafTactics Proofs.LeafLoops.
 Import ListNotations.
 Local Open Scope string_scope.
 Local Open Scope Z_scope.
@@ -20,24 +20,6 @@ Proof.
   rewrite Z.quot_div_nonneg by lia.
   replace (bits + 8 - 1) with (bits + 7) by lia. reflexivity.
 Qed.
-
-Section FindLoop.
-Variable body : Z -> state -> outcome.
-Variable mk : Z -> list N -> state.
-Variable p : N -> N -> bool.
-Variable r : Z.
-Variable l : list N.
-Hypothesis Hfind : forall k v, 0 <= k < Z.of_nat (List.length l) ->
-  body k (mk v l) = if p (Z.to_N k) (uget l (Z.to_N k)) then ONormal (mk k l) else OReturn (mk k l) (Some r).
-Lemma iter_range_find_r : forall n k v, 0 <= k -> k + Z.of_nat n <= Z.of_nat (List.length l) ->
-  exists v', iter_range n k body (mk v l) = if all_range p l (Z.to_N k) n then ONormal (mk v' l) else OReturn (mk v' l) (Some r).
-Proof.
-  induction n as [|n IH]; intros k v Hk Hfit; cbn [iter_range all_range]; [exists v; reflexivity|].
-  rewrite Hfind by lia. destruct (p (Z.to_N k) (uget l (Z.to_N k))); cbn [andb]; [|exists k; reflexivity].
-  destruct (IH (k + 1) k) as [v' E]; [lia|lia|]. exists v'. rewrite E.
-  replace (Z.to_N (k + 1)) with (Z.to_N k + 1)%N by lia. reflexivity.
-Qed.
-End FindLoop.
 
 Definition bytes_eqb (b o : list N) : bool := forallb (fun q => (fst q =? snd q)%N) (combine b o).
 Lemma bytes_eqb_spec : forall b o, List.length b = List.length o -> (bytes_eqb b o = true <-> b = o).
